@@ -96,3 +96,20 @@ def readable (s : S) (i : Nat) : Bool :=
   s.live.contains i && (s.recs.filter (fun r => r.id == i)).all (fun r => if r.abs then s.ext.contains r.path else s.disk.contains r.path)
 
 end Artifacts
+
+/-! The map `emptyTrash` recounts with (`Gen/TrashPy.lean` is expressed with these). -/
+namespace Artifacts
+
+/-- `path_map` of `emptyTrash`: a `defaultdict(set)` from artifact path to the ids of the datasets recorded there — its keys, and a
+lookup that answers `[]` for a path that is not a key. -/
+structure PM where
+  keys : List Nat
+  get : Nat → List Nat
+
+def pmGet (m : PM) (p : Nat) : List Nat := if m.keys.contains p then m.get p else []
+def pmSet (m : PM) (p : Nat) (v : List Nat) : PM :=
+  { keys := if m.keys.contains p then m.keys else p :: m.keys, get := fun q => if q = p then v else m.get q }
+def pmDel (m : PM) (p : Nat) : PM := { m with keys := m.keys.filter (· != p) }
+def pmKeys (m : PM) : List Nat := m.keys
+
+end Artifacts
